@@ -544,7 +544,11 @@ def _atheris_part(ctx, job):
         env = dict(os.environ, VF_FUZZ_OUT=out_json, PYTHONPATH=os.pathsep.join([VERIF, deps]))
         cmd = [sys.executable, "-m", "vf.fuzz_decode", corpus, f"-runs={job['runs']}", f"-seed={ctx.seed}",
                "-max_len=64", "-verbosity=0", "-print_final_stats=1", f"-artifact_prefix={work}/"]
-        r = subprocess.run(cmd, capture_output=True, text=True, env=env, cwd=VERIF, timeout=3600)
+        def _unlimit():    # libFuzzer reserves a large address space; the worker's own memory cap does not apply to it
+            import resource
+            soft, hard = resource.getrlimit(resource.RLIMIT_AS)
+            resource.setrlimit(resource.RLIMIT_AS, (hard, hard))
+        r = subprocess.run(cmd, capture_output=True, text=True, env=env, cwd=VERIF, timeout=3600, preexec_fn=_unlimit)
         import json
         import re
         m = re.search(r"stat::number_of_executed_units:\s*(\d+)", r.stderr)
